@@ -212,8 +212,22 @@ func runCheck(opts checkOpts) (int, map[string]any) {
 	var notes, assumed, closed []string
 	usedAx := map[string]bool{}
 	var missing []string
+	type job struct {
+		k  string
+		fn *ssa.Function
+	}
+	var jobs []job
 	for _, k := range keys {
-		fn := en.funcs[k]
+		if insts := en.inst[k]; len(insts) > 0 {
+			for _, fn := range insts {
+				jobs = append(jobs, job{k, fn})
+			}
+			continue
+		}
+		jobs = append(jobs, job{k, en.funcs[k]})
+	}
+	for _, j := range jobs {
+		k, fn := j.k, j.fn
 		if fn == nil || fn.Blocks == nil {
 			missing = append(missing, k)
 			continue
